@@ -228,6 +228,7 @@ func (f *FibStrategyHashTable) pruneTables(entry *baseFibStrategyEntry) {
 // FindNextHops returns the longest-prefix matching nexthop(s) matching the specified name.
 
 func (f *FibStrategyHashTable) FindNextHopsEnc(name enc.Name) []*FibNextHopEntry {
+	verifGate("fib")
 	f.fibStrategyRWMutex.RLock()
 	defer f.fibStrategyRWMutex.RUnlock()
 
@@ -254,6 +255,7 @@ func (f *FibStrategyHashTable) FindNextHopsEnc(name enc.Name) []*FibNextHopEntry
 // FindStrategy returns the longest-prefix matching strategy choice entry for the specified name.
 
 func (f *FibStrategyHashTable) FindStrategyEnc(name enc.Name) enc.Name {
+	verifGate("fib")
 	f.fibStrategyRWMutex.RLock()
 	defer f.fibStrategyRWMutex.RUnlock()
 
@@ -278,6 +280,7 @@ func (f *FibStrategyHashTable) FindStrategyEnc(name enc.Name) enc.Name {
 
 // InsertNextHop adds or updates a nexthop entry for the specified prefix.
 func (f *FibStrategyHashTable) InsertNextHopEnc(name enc.Name, nexthop uint64, cost uint64) {
+	verifGate("fib")
 	f.fibStrategyRWMutex.Lock()
 	defer f.fibStrategyRWMutex.Unlock()
 	f.insertNextHopLocked(name, nexthop, cost)
@@ -304,6 +307,7 @@ func (f *FibStrategyHashTable) insertNextHopLocked(name enc.Name, nexthop uint64
 
 // ClearNextHops clears all nexthops for the specified prefix.
 func (f *FibStrategyHashTable) ClearNextHopsEnc(name enc.Name) {
+	verifGate("fib")
 	f.fibStrategyRWMutex.Lock()
 	defer f.fibStrategyRWMutex.Unlock()
 	f.clearNextHopsLocked(name)
@@ -311,6 +315,7 @@ func (f *FibStrategyHashTable) ClearNextHopsEnc(name enc.Name) {
 
 // ReplaceNextHopsEnc replaces the nexthops of the specified prefix under one write lock.
 func (f *FibStrategyHashTable) ReplaceNextHopsEnc(name enc.Name, nexthops []FibNextHopEntry) {
+	verifGate("fib")
 	f.fibStrategyRWMutex.Lock()
 	defer f.fibStrategyRWMutex.Unlock()
 	f.clearNextHopsLocked(name)
@@ -330,6 +335,7 @@ func (f *FibStrategyHashTable) clearNextHopsLocked(name enc.Name) {
 // RemoveNextHop removes the specified nexthop entry from the specified prefix
 
 func (f *FibStrategyHashTable) RemoveNextHopEnc(name enc.Name, nexthop uint64) {
+	verifGate("fib")
 	f.fibStrategyRWMutex.Lock()
 	defer f.fibStrategyRWMutex.Unlock()
 
@@ -355,6 +361,7 @@ func (f *FibStrategyHashTable) RemoveNextHopEnc(name enc.Name, nexthop uint64) {
 
 // GetAllFIBEntries returns all nexthop entries in the FIB.
 func (f *FibStrategyHashTable) GetAllFIBEntries() []FibStrategyEntry {
+	verifGate("fib")
 	f.fibStrategyRWMutex.RLock()
 	defer f.fibStrategyRWMutex.RUnlock()
 	entries := make([]FibStrategyEntry, 0)
@@ -370,6 +377,7 @@ func (f *FibStrategyHashTable) GetAllFIBEntries() []FibStrategyEntry {
 // SetStrategy sets the strategy for the specified prefix.
 
 func (f *FibStrategyHashTable) SetStrategyEnc(name enc.Name, strategy enc.Name) {
+	verifGate("fib")
 	f.fibStrategyRWMutex.Lock()
 	defer f.fibStrategyRWMutex.Unlock()
 
@@ -379,6 +387,7 @@ func (f *FibStrategyHashTable) SetStrategyEnc(name enc.Name, strategy enc.Name) 
 
 // UnsetStrategy unsets the strategy for the specified prefix.
 func (f *FibStrategyHashTable) UnSetStrategyEnc(name enc.Name) {
+	verifGate("fib")
 	f.fibStrategyRWMutex.Lock()
 	defer f.fibStrategyRWMutex.Unlock()
 
@@ -391,6 +400,7 @@ func (f *FibStrategyHashTable) UnSetStrategyEnc(name enc.Name) {
 
 // GetAllForwardingStrategies returns all strategy choice entries in the Strategy Table.
 func (f *FibStrategyHashTable) GetAllForwardingStrategies() []FibStrategyEntry {
+	verifGate("fib")
 	f.fibStrategyRWMutex.RLock()
 	defer f.fibStrategyRWMutex.RUnlock()
 	entries := make([]FibStrategyEntry, 0)
